@@ -1088,6 +1088,52 @@ def oracle_tree(case, real):
                     fails.append(("%s:nested-set" % root, "set_params(%s=...) on %s changed / missed: %s" % (k, root, ",".join(diff[:5]))))
         except Exception:
             pass
+    # "component__param reads and writes the component's parameter and whole components can be replaced by name",
+    # both in ONE call: after set_params(name=new, name__p=v) the value under `name` is `new` and new.p == v
+    for op, out in zip(case["ops"], outs):
+        if not (op.startswith("set:") and "|" in op and out.startswith("ok ")):
+            continue
+        try:
+            pool = pool_classes()
+            kvs = dict(kv.split("=", 1) for kv in op[4:].split("|"))
+            after = parse_tree(out[3:].split(" ")[0])
+            for k, vs in kvs.items():
+                newv = parse_tree(vs)
+                if newv[0] != "e":
+                    continue
+                for k2, vs2 in kvs.items():
+                    if not (k2.startswith(k + "__") and "__" not in k2[len(k) + 2:]):
+                        continue
+                    v2 = parse_tree(vs2)
+                    cur, okpath = after, True
+                    for part in k.split("__"):
+                        if cur[0] == "e":
+                            nm = pool.get(cur[2], {}).get("named")
+                            names = [x for x, _ in cur[3][nm][1]] if nm and nm in cur[3] and cur[3][nm][0] == "n" else []
+                            if names.count(part) > 1 or (part in names and part in cur[3]):
+                                okpath = False          # duplicate / clashing names: outside the text
+                        cur = _node_child(cur, part, pool) if cur is not None else None
+                        if cur is None:
+                            okpath = False
+                        if not okpath:
+                            break
+                    if not okpath:
+                        continue
+                    p2 = k2[len(k) + 2:]
+                    got_id = cur[1] if cur[0] == "e" else None
+                    got_val = cur[3].get(p2) if cur[0] == "e" else None
+                    want = ("a%d" % v2[1]) if v2[0] == "a" else ("e%d" % v2[1] if v2[0] == "e" else None)
+                    gv = None if got_val is None else ("a%d" % got_val[1] if got_val[0] == "a" else "e%s" % got_val[1] if got_val[0] == "e" else "n")
+                    if got_id != newv[1]:
+                        fails.append(("%s:replace-then-nested:component" % root,
+                                      "set_params(%s=<e%d>, %s=...) on %s: get_params()[%r] is e%s, not the new component" % (
+                                          k, newv[1], k2, root, k, got_id)))
+                    elif want is not None and gv != want:
+                        fails.append(("%s:replace-then-nested:param" % root,
+                                      "set_params(%s=<new %s>, %s=%s) on %s in one call: afterwards get_params()[%r] is %s "
+                                      "(the nested value did not reach the new component)" % (k, newv[2], k2, want, root, k2, gv)))
+        except Exception:
+            pass
     for op, out in zip(case["ops"], outs):
         name, _, arg = op.partition(":")
         if out.startswith("E:op-"):
